@@ -96,7 +96,7 @@ class LockStep:
         self.model.train()
         self.twin.train()
         for m in (self.model, self.twin):
-            m.zero_grad(set_to_none=True)
+            m.zero_grad(set_to_none=self.case.get('zero_to_none', True))
         before = self.factors()
         plan = list(range(accum))
         if reset_after is not None and not c.get('in_hook', True) and 0 < reset_after <= accum:
